@@ -283,6 +283,10 @@ pub fn run(tier: Tier) -> i32 {
     for (order, stage, ns, wset, lpf) in [(65usize, 0usize, 3usize, 2usize, 3usize), (64, 0, 2, 1, 3), (80, 0, 3, 8, 31), (129, 0, 3, 1, 5), (65, 1, 3, 2, 3), (66, 2, 2, 8, 3)] {
         fam.push(GenCfg { ns, stage, nstate: 2, wset, gv: stage == 0 && order < 100, order, lpf_taps: lpf, log_gain: stage == 2, ..GenCfg::default() });
     }
+    // window sets whose static window is stored with zero padding
+    for (wset, nstate, stage) in [(9usize, 1usize, 0usize), (10, 2, 0), (11, 3, 1), (9, 5, 2)] {
+        fam.push(GenCfg { ns: 3, stage, nstate, wset, gv: false, order: 4, log_gain: false, ..GenCfg::default() });
+    }
     let sub_labels: Vec<String> = ["sil", "a", "k", "N", "pau", "i"].iter().filter_map(|c| lam.iter().find(|l| labels::centre(l) == *c).cloned()).collect();
     let mut gutts: Vec<Utt> = vec![Utt::Strs(vec![])];
     for l in &sub_labels {
